@@ -210,6 +210,9 @@ func (m *Machine) fmtVal(fr *frame, pos token.Pos, verb byte, t types.Type, v Va
 				return Str{S: fmt.Sprintf("%%!s(%s=%d)", t.String(), iv)}, true
 			}
 		}
+		if !v.IsConst() && v.Sort.K == sym.KBV && (verb == 'd' || verb == 'v') {
+			return m.fmtSymInt(v, isSigned(t)), true
+		}
 		return Str{}, false
 	case *FloatV:
 		if v.IsConst() {
@@ -498,3 +501,19 @@ func (m *Machine) anyPermSort(fr *frame, pos token.Pos, sl Slice, less Value) {
 }
 
 var _ = ssa.InstantiateGenerics
+
+// fmtSymInt renders a symbolic integer in base 10: a single symbolic digit when the value is in [0,9]
+// (no fork), otherwise the value is concretised (forks over its feasible values).
+func (m *Machine) fmtSymInt(v *sym.Term, signed bool) Str {
+	w := v.Sort.W
+	small := m.F.Bin(sym.OULT, v, m.F.Const(v.Sort, 10))
+	if m.branch(small) {
+		d := m.F.Bin(sym.OAdd, m.toWidth(v, 8, false), m.bv(8, '0'))
+		return Str{B: []*sym.Term{d}}
+	}
+	c := m.concretize(v, "integer to format")
+	if signed {
+		return Str{S: strconv.FormatInt(m.F.Const(sym.BV(w), c).Int64(), 10)}
+	}
+	return Str{S: strconv.FormatUint(c, 10)}
+}
